@@ -1312,7 +1312,8 @@ class MyPyAstVisitor:
                         # For wildcard imports we check in the _is_public method if the func / class is internal
                         for qualified_import in reexport_source.qualified_imports:
 
-                            if qname.endswith(qualified_import.qualified_name) and (
+                            # The imported name has to match whole segments ("utils.x" does not import "_utils.x")
+                            if f".{qname}".endswith(f".{qualified_import.qualified_name}") and (
                                 qualified_import.alias is not None
                                 and not is_internal(qualified_import.alias)
                                 or (qualified_import.alias is None and not_internal)
